@@ -74,6 +74,7 @@ def cargo_scan(repo, target, store, log, extra=()):
         'DFSCAN_OUT': store,
         'CARGO_NET_OFFLINE': 'true',
         'CARGO_TERM_COLOR': 'never',
+        'CARGO_INCREMENTAL': '0',     # incremental sessions replay queries and steal mir_built before the driver sees it
     })
     env.pop('RUSTC_WRAPPER', None)
     cmd = ['cargo', '+nightly', 'check', '--offline', '--workspace'] + list(extra)
@@ -93,11 +94,12 @@ def newest_per_crate(store):
 
 
 def complete(p):
+    """the fact file has its end record and the driver saw every body (none stolen)"""
     try:
         with open(p, 'rb') as f:
             f.seek(max(0, os.path.getsize(p) - 400))
             tail = f.read()
-        return b'"rec":"end"' in tail
+        return b'"rec":"end"' in tail and b'"stolen":0}' in tail
     except OSError:
         return False
 
@@ -132,7 +134,7 @@ def ensure_facts(repo=REPO, variant='default', extra=(), quiet=False):
             tail = open(log).read()[-3000:]
             raise RuntimeError('cargo +nightly check failed (the tree does not type-check under the driver):\n' + tail)
         files = newest_per_crate(store)
-        missing = [c for c in EXPECTED if c not in files or not complete(files[c])]
+        missing = [c for c in files if not complete(files[c])] + [c for c in EXPECTED if c not in files]
         if missing:
             # store and target dir out of sync (e.g. store wiped): force members to re-check
             for fp in glob.glob(os.path.join(target, 'debug', '.fingerprint', '*')):
@@ -143,9 +145,9 @@ def ensure_facts(repo=REPO, variant='default', extra=(), quiet=False):
             if rc != 0:
                 raise RuntimeError('cargo +nightly check failed:\n' + open(log).read()[-3000:])
             files = newest_per_crate(store)
-            missing = [c for c in EXPECTED if c not in files or not complete(files[c])]
+            missing = [c for c in files if not complete(files[c])] + [c for c in EXPECTED if c not in files]
             if missing:
-                raise RuntimeError('no facts exported for crates: %s' % missing)
+                raise RuntimeError('no complete facts exported for crates: %s' % missing)
         tmp = view + '.tmp%d' % os.getpid()
         shutil.rmtree(tmp, ignore_errors=True)
         os.makedirs(tmp)
